@@ -152,6 +152,68 @@ pub mod pair_{i} {{
             "        {i} => Some(crate::PairFns {{ parse: pair_{i}::parse, token_epp: pair_{i}::token_epp, rule_consts: pair_{i}::rule_consts, token_consts: pair_{i}::token_consts }}),"
         );
     }
+    // lexer-only items: the lexer by itself with user-supplied token ids
+    let mut lcalls = String::new();
+    for p in spec["lexers"].as_array().cloned().unwrap_or_default() {
+        let i = p["id"].as_u64().unwrap();
+        let lp = here.join(format!("gen/x{i}.l"));
+        println!("cargo::rerun-if-changed=gen/x{i}.l");
+        let lout = out.join(format!("x{i}.l.rs"));
+        let lmod = format!("x{i}_l");
+        let lmod_static: &'static str = Box::leak(lmod.clone().into_boxed_str());
+        let map: std::collections::HashMap<String, u32> = p["ids"]
+            .as_array()
+            .unwrap()
+            .iter()
+            .map(|e| (e[0].as_str().unwrap().to_string(), e[1].as_u64().unwrap() as u32))
+            .collect();
+        let res = std::panic::catch_unwind(move || {
+            CTLexerBuilder::<DefaultLexerTypes<u32>>::new_with_lexemet()
+                .lexer_path(&lp)
+                .output_path(&lout)
+                .mod_name(lmod_static)
+                .rule_ids_map(map)
+                .allow_missing_terms_in_lexer(true)
+                .allow_missing_tokens_in_parser(true)
+                .show_warnings(false)
+                .build()
+                .map(|_| ())
+                .map_err(|e| e.to_string())
+        });
+        match res {
+            Ok(Ok(())) => report.push(serde_json::json!({"id": i, "built": true, "lexer_only": true})),
+            Ok(Err(e)) => {
+                report.push(serde_json::json!({"id": i, "built": false, "lexer_only": true, "error": e}));
+                continue;
+            }
+            Err(_) => {
+                report.push(serde_json::json!({"id": i, "built": false, "lexer_only": true, "error": "builder panicked"}));
+                continue;
+            }
+        }
+        let _ = write!(
+            mods,
+            r#"
+include!(concat!(env!("OUT_DIR"), "/x{i}.l.rs"));
+pub mod lex_{i} {{
+    use lrlex::LexerDef as _;
+    pub fn lex(input: &str) -> String {{
+        let ld = super::{lmod}::lexerdef();
+        let lexer = ld.lexer(input);
+        crate::show_lexemes(&lexer)
+    }}
+    pub fn describe() -> String {{
+        crate::describe_lexerdef(&super::{lmod}::lexerdef())
+    }}
+}}
+"#
+        );
+        let _ = writeln!(lcalls, "        {i} => Some(crate::LexFns {{ lex: lex_{i}::lex, describe: lex_{i}::describe }}),");
+    }
+    let _ = write!(
+        mods,
+        "\npub fn lexer_fns(id: u64) -> Option<crate::LexFns> {{\n    match id {{\n{lcalls}        _ => None,\n    }}\n}}\n"
+    );
     let _ = write!(
         mods,
         "\npub fn pair_fns(id: u64) -> Option<crate::PairFns> {{\n    match id {{\n{calls}        _ => None,\n    }}\n}}\n"
